@@ -43,8 +43,10 @@ import (
 	"github.com/ozontech/seq-db/logger"
 	"github.com/ozontech/seq-db/metric/stopwatch"
 	"github.com/ozontech/seq-db/node"
+	"github.com/ozontech/seq-db/pkg/storeapi"
 	"github.com/ozontech/seq-db/parser"
 	"github.com/ozontech/seq-db/pattern"
+	proxysearch "github.com/ozontech/seq-db/proxy/search"
 	"github.com/ozontech/seq-db/seq"
 	"github.com/ozontech/seq-db/util"
 
@@ -1002,6 +1004,61 @@ func chanActiveInversePooled(o vh.Opts, g gen) *vh.Channel {
 	return ch
 }
 
+// ---------------------------------------------------------------- oracle: the store request of the proxy
+
+// apiRequestCase checks the contract of proxy/search.SearchRequest.GetAPISearchRequest for one (size, offset): the
+// request sent to every store carries Size AND Offset unchanged (the store searches with limit = Size + Offset, the
+// proxy cuts the page after merging), and the window, order and total flag as given.
+func apiRequestCase(size, offset int) string {
+	return safely(func() string {
+		for _, order := range []seq.DocsOrder{seq.DocsOrderDesc, seq.DocsOrderAsc} {
+			sr := &proxysearch.SearchRequest{Q: []byte("a:b"), Size: size, Offset: offset, From: 3, To: 9, WithTotal: true, Order: order}
+			r := sr.GetAPISearchRequest()
+			if r.Size != int64(size) || r.Offset != int64(offset) {
+				return fmt.Sprintf("size=%d offset=%d", r.Size, r.Offset)
+			}
+			if r.From != 3 || r.To != 9 || !r.WithTotal || r.Query != "a:b" || r.Order != storeapiOrder(order) {
+				return "other-fields-changed"
+			}
+		}
+		return "same"
+	})
+}
+
+func storeapiOrder(o seq.DocsOrder) storeapi.Order { return storeapi.MustProtoOrder(o) }
+
+func runAPIRequests(o vh.Opts, g gen, rep *vh.Report, lines []string) *vh.Oracle {
+	orc := vh.NewOracle("proxy.apirequest", "proxy/search.SearchRequest.GetAPISearchRequest: the store request must carry Size and Offset unchanged (and window, order, total flag) for every size, offset in {0,1,2,3,5,10,100,1000,99999,100000,100001} and random pairs; non-trivial = offset > 0")
+	check := func(size, offset int) {
+		res := apiRequestCase(size, offset)
+		orc.Case(fmt.Sprintf("apireq %d %d", size, offset), offset > 0, fmt.Sprintf("offset>0=%v", offset > 0))
+		if res != "same" {
+			rep.Violate(vh.Violation{Site: "proxy/search/search_request.go:GetAPISearchRequest", Class: "store-request-loses-paging",
+				What:   fmt.Sprintf("size=%d offset=%d: the store request has %s; each store then returns only its first `size` ids and the page [offset, offset+size) is cut from an incomplete merge (c02_page_needs_offset)", size, offset, res),
+				Replay: []string{fmt.Sprintf("apireq %d %d", size, offset)}})
+		}
+	}
+	if lines != nil {
+		for _, l := range lines {
+			var a, b int
+			if n, _ := fmt.Sscanf(l, "apireq %d %d", &a, &b); n == 2 {
+				check(a, b)
+			}
+		}
+		return orc
+	}
+	vals := []int{0, 1, 2, 3, 5, 10, 100, 1000, 99999, 100000, 100001}
+	for _, sz := range vals {
+		for _, off := range vals {
+			check(sz, off)
+		}
+	}
+	for i := 0; i < o.Pick(200, 2000); i++ {
+		check(g.r.Intn(1<<20), g.r.Intn(1<<20))
+	}
+	return orc
+}
+
 // ---------------------------------------------------------------- channel: util.Bitmask.HasBitsIn
 
 // chanBitmask: the bitmap under seq.MIDsDistribution (one bit per minute of a sealed fraction's time span).
@@ -1298,7 +1355,7 @@ func lidsFile(dir string, capacity int, tokens [][]byte, postings [][]uint32, nL
 // 2..16 LIDs, so that tokens span many blocks (also blocks lying wholly inside one token) - vs EvalTree.narrow, the
 // form C02's index view uses (posting list cut to the borders, in iteration order).
 func chanSealedLids(o vh.Opts, g gen, dir string) *vh.Channel {
-	ch := vh.NewChannel("sealed.lids", "lids.IteratorDesc / IteratorAsc over LID blocks written by the real generator with capacities 2..16 (tokens spanning 1..20 blocks, every tid, windows inside / across / outside the list) vs EvalTree.narrow; non-trivial = the token spans >= 3 LID blocks")
+	ch := vh.NewChannel("sealed.lids", "sealedTokenIndex.GetLIDsFromTIDs (start block per order, lids.IteratorDesc / IteratorAsc) over LID blocks written by the real generator with capacities 2..16 (tokens spanning 1..20 blocks, every tid, windows inside / across / outside the list) vs EvalTree.narrow; non-trivial = the token spans >= 3 LID blocks")
 	n := o.Pick(120, 1200)
 	for i := 0; i < n; i++ {
 		nLids := g.r.Range(10, 80)
@@ -1340,18 +1397,15 @@ func chanSealedLids(o vh.Opts, g gen, dir string) *vh.Channel {
 				}
 				for _, rev := range []bool{false, true} {
 					impl := safely(func() string {
-						var cur *lids.Cursor
-						var next func() (uint32, bool)
+						order := seq.DocsOrderDesc
 						if rev {
-							cur = lids.NewLIDsCursor(tbl, loader, tbl.GetLastBlockIndexForTID(tid), tid, noCounter{}, lo, hi)
-							next = (*lids.IteratorAsc)(cur).Next
-						} else {
-							cur = lids.NewLIDsCursor(tbl, loader, tbl.GetFirstBlockIndexForTID(tid), tid, noCounter{}, lo, hi)
-							next = (*lids.IteratorDesc)(cur).Next
+							order = seq.DocsOrderAsc
 						}
+						// through sealedTokenIndex.GetLIDsFromTIDs: the start block and the iterator are chosen there
+						nodes := frac.VerifC02SealedLIDs(tbl, loader, []uint32{tid}, noCounter{}, lo, hi, order)
 						var out []uint32
 						for c := 0; c <= nLids+2; c++ {
-							v, ok := next()
+							v, ok := nodes[0].Next()
 							if !ok {
 								return "ok " + vh.JoinInts(out)
 							}
@@ -2289,6 +2343,12 @@ func main() {
 		}
 	}
 	rep.AddOracle(orc)
+	if o.Replay != "" {
+		lines, _ := vh.ReadReplay(o.Replay)
+		rep.AddOracle(runAPIRequests(o, gen{vh.NewRNG(o.Seed + 82)}, rep, append([]string{}, lines...)))
+	} else if want("proxy.apirequest") {
+		rep.AddOracle(runAPIRequests(o, gen{vh.NewRNG(o.Seed + 82)}, rep, nil))
+	}
 	rep.Write(o.Out)
 }
 
